@@ -198,6 +198,7 @@ def _failures(stage: int, m: int, cfg: int, ext: int, ast: bool = False, own_pat
     """
     pre: not own_path or stage == 4 or stage == 9 or stage == 6
     pre: 0 <= stage < len(STAGES) and 0 <= m < len(MESSAGES) and 0 <= cfg <= 1 and 0 <= ext < len(EXT_KINDS)
+    pre: shard_of(stage)
     pre: ext <= 1 or stage == 9 or stage == 4
     post: _
     """
@@ -328,8 +329,8 @@ CONDITIONS = [
         witness={"t": 20, "nul": 0, "fail": 0, "cfg": 0, "shared": False},
     ),
     Cond(
-        name="failures", fn=_failures, quick=60, thorough=120,
-        bound="15 failure stages (a subscription / a mutation operation sent to a schema or entry point that does not serve it, parse, validate, operation selection, variable coercion with one / several errors, validation errors with several nodes / several errors over several lines, resolver error, non-null, list item, "
+        name="failures", fn=_failures, quick=60, thorough=120, shards_quick=4, shards_thorough=4,
+        bound="19 failure stages (a null variable for @skip / @include at the root, in a root fragment, nested, in a mutation; a subscription / a mutation operation sent to a schema or entry point that does not serve it, parse, validate, operation selection, variable coercion with one / several errors, validation errors with several nodes / several errors over several lines, resolver error, non-null, list item, "
               "NaN, infinities, extensions) x 4 resolver-error messages (incl. empty, quotes/backslash/newline, long) x 2 executors x resolver-supplied extensions (none, dict, empty dict, and for the resolver-error stages mappingproxy / OrderedDict / UserDict / ChainMap) x request given as text or as a parsed document x resolver errors built plainly or with a `path` argument of their own (the response path is the field's)",
         symbolic={"stage": "choice", "m": "choice: message", "cfg": "choice: BlockingExecutor / Executor", "ext": "choice: kind of Mapping given as extensions", "ast": "choice: text / parsed document", "own_path": "choice: the error carries a path already"},
         witness={"stage": 4, "m": 0, "cfg": 0, "ext": 0, "ast": False, "own_path": False},
